@@ -40,6 +40,7 @@ type Session struct {
 	BridgeW      *tracew.Writer // bridge trace (may be nil)
 	bridgeAddrID func(string) string
 	afterImport  bool // the next block is the first one of a chain initialised from an export
+	OddBitmaps   bool // fullVote now and then trims the bitmap of a genuine vote (determinism histories only)
 
 	// harness-side interning of the randomness accumulator: hash chain over accepted vote signatures
 	rdao    []byte
@@ -71,9 +72,9 @@ type RelTx struct {
 	Sig   []byte // vote signature (for the accumulator)
 	Vid   int
 	Votes *relayertypes.Votes
-	Msg   sdk.Msg // the message itself (voted messages): a withheld vote is submitted later, unchanged
+	Msg   sdk.Msg  // the message itself (voted messages): a withheld vote is submitted later, unchanged
 	Parts []*RelTx // a transaction with several messages: the single-message transactions it was merged from (their events describe the messages)
-	BEv   string  // bridge-trace event (hashes | pubkey | deposits | process | replace | finalize | approve | other)
+	BEv   string   // bridge-trace event (hashes | pubkey | deposits | process | replace | finalize | approve | other)
 	BF    Ev
 }
 
@@ -575,7 +576,6 @@ func hash32(parts ...[]byte) []byte {
 }
 
 var _ = bytes.Equal
-
 
 var msgIndexRe = regexp.MustCompile(`message index: (\d+)`)
 
